@@ -114,3 +114,10 @@ def search(ctx):
 
 def replay(ctx, case):
     return replay_eval(ctx, "C19", case)
+
+
+MANIFEST = dict(
+    text="Proof (PARTIAL): the two-dimensional recurrence of the amplification rounds gives (-1)^j(sin((2j+1)t), cos((2j+1)t)) for every j and t (C19_grover_rec) and the oracle loads modulus m and sqrt(1-m^2) provided 0<=m<=1 (C19_oracle_flag - the hypothesis binary64 violated before the repair). Tie: the definition must be (U, I_t, U^-1, I_s)^r U with r = floor(pi sqrt(N)/4), global phase pi iff r odd, U = H; UCRY; UCRZ, with angles satisfying the theorem's premises. The reduction of the n-qubit circuit to the recurrence and the flagged branch are evaluated.",
+    note='Modelled, not verified: Qiskit UCRY/UCRZ multiplexer convention (validated per run); reduction to the 2-D recurrence evaluated.',
+    technique='Coq proof (trigonometric induction) + structural tie of the instruction list + angle contract + state-vector evaluation',
+    design_ref='DESIGN.md section 4, C19')
